@@ -16,6 +16,8 @@ CONFIGS = {
     "plain": dict(app=False),
     "plain-swapped": dict(app=False, sides=("cc" * 8, "11" * 8)),
     "with-app": dict(app=True),
+    "leader-not-dialable": dict(app=False, no_listen=(False, True)),
+    "follower-not-dialable": dict(app=False, no_listen=(True, False)),
 }
 DOCUMENTED_LOG = set()
 
